@@ -727,3 +727,160 @@ theorem packFlat_toFlat [Inhabited α] (df : FlatDF α) (hne : df.cols ≠ [])
       rfl
 
 end NP
+
+namespace NP
+variable {α : Type}
+
+/-! ### `add_nested(how="inner")` end to end -/
+
+/-- the content of a column at the rows `ps`, in that order -/
+def ColData.selected (ps : List Nat) (na : α) : ColData α → ColData α → Prop
+  | .base t v, .base t' v' => t' = t ∧ v' = ps.map fun i => v.getD i na
+  | .nest c, .nest c' => c'.rows = ps.map fun i => c.rows.getD i none
+  | _, _ => False
+
+theorem spec_take_positions (rows : List (Row α)) (ps : List Nat) (hps : ∀ p ∈ ps, p < rows.length) (fill : Row α) :
+    Spec.take rows (ps.map fun (i : Nat) => (i : Int)) true fill = .ok (ps.map fun i => rows.getD i none) := by
+  unfold Spec.take
+  have h1 : (ps.map fun (i : Nat) => (i : Int)).any (fun i => decide (i ≥ (rows.length : Int))) = false := by
+    rw [List.any_eq_false]
+    intro x hx
+    simp only [List.mem_map] at hx
+    obtain ⟨i, hi, rfl⟩ := hx
+    have := hps i hi
+    simp only [ge_iff_le, decide_eq_true_eq]
+    omega
+  have h2 : (ps.map fun (i : Nat) => (i : Int)).any (· < -1) = false := by
+    rw [List.any_eq_false]
+    intro x hx
+    simp only [List.mem_map] at hx
+    obtain ⟨i, _, rfl⟩ := hx
+    simp only [decide_eq_true_eq]
+    omega
+  simp only [if_true, h1, h2, Bool.false_eq_true, if_false, pure, Except.pure, List.map_map]
+  congr 1
+
+theorem takeColData_positions (F : NFrame α) (hF : F.Consistent) (na : α) (ps : List Nat)
+    (hps : ∀ p ∈ ps, p < F.index.length) :
+    ∀ p ∈ F.cols, ∃ p', takeColData (ps.map some) na p = .ok p' ∧ (p'.1 = p.1 ∧ ColData.selected ps na p.2 p'.2) := by
+  intro p hp
+  obtain ⟨n, d⟩ := p
+  cases d with
+  | base t v =>
+    refine ⟨(n, .base t (ps.map fun i => v.getD i na)), ?_, rfl, rfl, rfl⟩
+    unfold takeColData takeBase
+    simp only [pure, Except.pure, List.map_map]
+    rfl
+  | nest c =>
+    have ⟨hw, ha, hl⟩ := hF.nest n c hp
+    have hidx : optIndexer (ps.map some) = ps.map fun (i : Nat) => (i : Int) := by
+      unfold optIndexer
+      rw [List.map_map]
+      rfl
+    have h := take_refines_fill c hw ha (optIndexer (ps.map some)) none rfl
+    rw [hidx, spec_take_positions c.rows ps (by rw [PCol.rows_length, hl]; exact hps)] at h
+    obtain ⟨c', hc', hr⟩ := except_map_ok h
+    refine ⟨(n, .nest c'), ?_, rfl, hr⟩
+    unfold takeColData
+    simp only [hidx, hc', bind, Except.bind, pure, Except.pure]
+
+/-- the frame rows an inner join keeps: those whose label carries at least one flat record -/
+def innerKept (left flatIndex : List Label) : List Nat :=
+  (List.range left.length).filter fun i => decide (left.getD i (.int 0) ∈ flatIndex)
+
+theorem labelPos_nonneg_iff (keys : List Label) (l : Label) : (labelPos keys l ≥ 0) ↔ l ∈ keys := by
+  by_cases h : l ∈ keys
+  · obtain ⟨p, _, he, _⟩ := labelPos_mem keys l h
+    rw [he]
+    exact ⟨fun _ => h, fun _ => by omega⟩
+  · rw [labelPos_not_mem keys l h]
+    exact ⟨fun hh => by omega, fun hh => absurd hh h⟩
+
+/-- **`add_nested(how="inner")` end to end.**  For every consistent frame and ANY flat table with
+    at least one column: the call succeeds; the result keeps exactly the frame rows whose label
+    carries at least one flat record, in their original order, with the content of every column
+    they had; and every kept row holds — for every field at once — the cells of exactly the flat
+    records that carry its label, in their original order (no kept row is missing). -/
+theorem addNested_inner_rows [Inhabited α] (F : NFrame α) (hF : F.Consistent) (flat : FlatDF α)
+    (hne : flat.cols ≠ []) (name : String) (na : α) :
+    let kept := innerKept F.index flat.index
+    ∃ cols' col, F.addNested flat name .inner na =
+        .ok (NFrame.setCol { index := kept.map fun i => F.index.getD i (.int 0), cols := cols' } name (.nest col)) ∧
+      All2 (fun p p' => p'.1 = p.1 ∧ ColData.selected kept na p.2 p'.2) F.cols cols' ∧
+      col.rows = kept.map fun i => packedRow flat (F.index.getD i (.int 0)) := by
+  intro kept
+  obtain ⟨packed, hpk, hkeys, hwf, hal, _, hrows, _, _⟩ := packFlat_spec flat hne
+  -- the plan of the join
+  have hfilter : ((List.range F.index.length).filter fun i => decide (labelPos packed.index (F.index.getD i (.int 0)) ≥ 0)) = kept := by
+    apply List.filter_congr
+    intro i _
+    by_cases hm : F.index.getD i (.int 0) ∈ flat.index
+    · have : labelPos packed.index (F.index.getD i (.int 0)) ≥ 0 := by
+        rw [hkeys]; exact (labelPos_nonneg_iff _ _).mpr ((mem_packedKeys _ _).mpr hm)
+      show decide (labelPos packed.index (F.index.getD i (.int 0)) ≥ 0) = decide (F.index.getD i (.int 0) ∈ flat.index)
+      rw [decide_eq_true this, decide_eq_true hm]
+    · have : ¬ labelPos packed.index (F.index.getD i (.int 0)) ≥ 0 := by
+        rw [hkeys]; exact fun hh => hm ((mem_packedKeys _ _).mp ((labelPos_nonneg_iff _ _).mp hh))
+      show decide (labelPos packed.index (F.index.getD i (.int 0)) ≥ 0) = decide (F.index.getD i (.int 0) ∈ flat.index)
+      rw [decide_eq_false this, decide_eq_false hm]
+  have hplan : joinPlan .inner F.index packed.index =
+      kept.map fun i => (some i, labelPos packed.index (F.index.getD i (.int 0)), F.index.getD i (.int 0)) := by
+    simp only [joinPlan, hfilter]
+  have hkept_lt : ∀ p ∈ kept, p < F.index.length := by
+    intro p hp
+    exact List.mem_range.mp (List.mem_filter.mp hp).1
+  have hkept_mem : ∀ p ∈ kept, F.index.getD p (.int 0) ∈ flat.index := by
+    intro p hp
+    simpa using (List.mem_filter.mp hp).2
+  obtain ⟨cols', hcols', hall⟩ := mapM_ok_all2 (takeColData (kept.map some) na) _ F.cols
+    (takeColData_positions F hF na kept hkept_lt)
+  -- the lookup of the kept labels in the packed index
+  let indexer := kept.map fun i => labelPos packed.index (F.index.getD i (.int 0))
+  have htake := take_refines_fill packed.col hwf hal indexer none rfl
+  have hlen : packed.col.rows.length = packed.index.length := by rw [hrows, hkeys, List.length_map]
+  have h1 : indexer.any (fun i => decide (i ≥ (packed.col.rows.length : Int))) = false := by
+    rw [List.any_eq_false]
+    intro x hx
+    simp only [indexer, List.mem_map] at hx
+    obtain ⟨i, hi, rfl⟩ := hx
+    have hl : F.index.getD i (.int 0) ∈ packed.index := by rw [hkeys]; exact (mem_packedKeys _ _).mpr (hkept_mem i hi)
+    obtain ⟨p, hp, he, _⟩ := labelPos_mem packed.index _ hl
+    simp only [ge_iff_le, decide_eq_true_eq]
+    rw [he, hlen]; omega
+  have h2 : indexer.any (· < -1) = false := by
+    rw [List.any_eq_false]
+    intro x hx
+    simp only [indexer, List.mem_map] at hx
+    obtain ⟨i, hi, rfl⟩ := hx
+    have hl : F.index.getD i (.int 0) ∈ packed.index := by rw [hkeys]; exact (mem_packedKeys _ _).mpr (hkept_mem i hi)
+    obtain ⟨p, _, he, _⟩ := labelPos_mem packed.index _ hl
+    simp only [decide_eq_true_eq]
+    rw [he]; omega
+  unfold Spec.take at htake
+  simp only [if_true, h1, h2, Bool.false_eq_true, if_false, pure, Except.pure] at htake
+  obtain ⟨col, hcol, hcr⟩ := except_map_ok htake
+  refine ⟨cols', col, ?_, hall, ?_⟩
+  · unfold NFrame.addNested NFrame.takeRows
+    simp only [hpk, bind, Except.bind, pure, Except.pure, hplan, List.map_map]
+    have e1 : (kept.map ((fun x => x.1) ∘ fun i => (some i, labelPos packed.index (F.index.getD i (.int 0)), F.index.getD i (.int 0))))
+        = kept.map some := rfl
+    have e2 : (kept.map ((fun x => x.2.1) ∘ fun i => (some i, labelPos packed.index (F.index.getD i (.int 0)), F.index.getD i (.int 0))))
+        = indexer := rfl
+    have e3 : (kept.map ((fun x => x.2.2) ∘ fun i => (some i, labelPos packed.index (F.index.getD i (.int 0)), F.index.getD i (.int 0))))
+        = kept.map fun i => F.index.getD i (.int 0) := rfl
+    rw [e1, e2, e3]
+    simp only [hcols', hcol]
+  · rw [hcr]
+    simp only [indexer, List.map_map]
+    apply List.map_congr_left
+    intro i hi
+    simp only [Function.comp]
+    have hm := hkept_mem i hi
+    have hk : F.index.getD i (.int 0) ∈ packed.index := by rw [hkeys]; exact (mem_packedKeys _ _).mpr hm
+    obtain ⟨p, hp, he, hget⟩ := labelPos_mem packed.index _ hk
+    have hneg : ¬ ((p : Int) < 0) := by omega
+    rw [he, if_neg hneg, hrows]
+    rw [hkeys] at hget
+    simp [List.getD_eq_getElem?_getD, List.getElem?_map, hget]
+
+end NP
